@@ -373,6 +373,16 @@ func runTriple(t *rapid.T, e serverEntry, tr triple) string {
 			if again := get(nil); !proto.Equal(again, full) {
 				fail("%s returned %s, then a %s with read mask %s was made, and now %s returns %s (no Update in between)", tr.get.Name(), txt(full), tr.get.Name(), lib.MaskString(mask), tr.get.Name(), txt(again))
 			}
+			if rapid.IntRange(0, 2).Draw(t, "clientEditsWhatItRead") == 1 {
+				// ... and neither does a client that edits the responses it was given
+				keep := proto.Clone(full)
+				scribble(full.ProtoReflect())
+				scribble(got.ProtoReflect())
+				if again := get(nil); !proto.Equal(again, keep) {
+					fail("%s returned %s; the client then edited the responses it had received, and now %s returns %s (no Update in between)", tr.get.Name(), txt(keep), tr.get.Name(), txt(again))
+				}
+				lib.Ev.Class("client edits a response it received")
+			}
 		case "pull":
 			if len(streams) >= 2 {
 				continue
@@ -458,6 +468,16 @@ func runTriple(t *rapid.T, e serverEntry, tr triple) string {
 					}
 					ps.mu.Unlock()
 				}
+			}
+			if rapid.IntRange(0, 2).Draw(t, "clientEditsResponse") == 1 {
+				// the response is the caller's: editing it is not an update
+				keep := proto.Clone(after)
+				scribble(resp.ProtoReflect())
+				scribble(after.ProtoReflect())
+				if again := get(nil); !proto.Equal(again, keep) {
+					fail("%s returned %s; the client then edited that response, and now %s returns %s (no further Update)", tr.update.Name(), txt(keep), tr.get.Name(), txt(again))
+				}
+				lib.Ev.Class("client edits a response it received")
 			}
 		}
 	}
@@ -554,6 +574,44 @@ func awaitNext(ps *pullStream, allowed []proto.Message, must bool, mask *fieldma
 			return fmt.Errorf("%s was not delivered within 10s although the reader keeps up", txt(allowed[len(allowed)-1]))
 		}
 	}
+}
+
+// scribble is a client editing a message it received (responses belong to whoever made the call): every nested
+// message, list and map is emptied in place, then the top level fields are cleared.
+func scribble(m protoreflect.Message) {
+	if !m.IsValid() {
+		return
+	}
+	m.Range(func(fd protoreflect.FieldDescriptor, v protoreflect.Value) bool {
+		switch {
+		case fd.IsList():
+			l := v.List()
+			if fd.Message() != nil {
+				for i := 0; i < l.Len(); i++ {
+					scribble(l.Get(i).Message())
+				}
+			}
+			l.Truncate(0)
+		case fd.IsMap():
+			mp := v.Map()
+			var keys []protoreflect.MapKey
+			mp.Range(func(k protoreflect.MapKey, mv protoreflect.Value) bool {
+				if fd.MapValue().Message() != nil {
+					scribble(mv.Message())
+				}
+				keys = append(keys, k)
+				return true
+			})
+			for _, k := range keys {
+				mp.Clear(k)
+			}
+		case fd.Message() != nil:
+			scribble(v.Message())
+		default:
+			m.Clear(fd)
+		}
+		return true
+	})
 }
 
 func txtAll(ms []proto.Message) []string {
